@@ -151,7 +151,7 @@ func runC15(h *H) {
 	n := h.budget(500, 12000)
 	outcomes := map[string]int{}
 	{
-		// KNOWN FINDING (known_findings.jsonl, C15/compute/epsilon-below-rounding-floor): a valid request with a
+		// KNOWN FINDING (known_findings.jsonl, C15/compute/stop-criterion-never-met-in-floats): a valid request with a
 		// positive alpha whose epsilon lies below the rounding floor of its own iteration — the delta stalls
 		// at 2.04e-15 and Compute iterates until the client gives up.  Kept as one fixed case so that the
 		// finding stays visible (and so that a repair is noticed).
@@ -160,7 +160,7 @@ func runC15(h *H) {
 			alpha: fp(0.02), eps: fp(1e-15)}
 		res := env.compute(r, 8*time.Second)
 		h.n++
-		w := (&W{}).Str(fmt.Sprintf("C15-%d:C15/compute/epsilon-below-rounding-floor", h.n)).Str("C15").Str("oapi")
+		w := (&W{}).Str(fmt.Sprintf("C15-%d:C15/compute/stop-criterion-never-met-in-floats", h.n)).Str("C15").Str("oapi")
 		h.emit(w.oreq(r).Bar().oresp(r.stats, res))
 		g.count("oapi:epsilon-below-rounding-floor " + res.outcome)
 	}
